@@ -1,9 +1,9 @@
 """Field x value-class table for C20: one documented numeric input at a time is replaced by a
 representative of each value class; the rest of the command line stays valid."""
 
-CLASSES = ['neg', 'zero', 'pos', 'inf', 'nan']
-REP = dict(neg='-1', zero='0', inf='inf', nan='nan')          # 'pos' = the base value itself
-REPI = dict(neg='-1', zero='0')                                # integer-typed fields have no inf/nan
+CLASSES = ['neg', 'zero', 'pos', 'inf', 'nan', 'word']
+REP = dict(neg='-1', zero='0', inf='inf', nan='nan', word='all')          # 'pos' = the base value itself; 'word' = a keyword where a number belongs
+REPI = dict(neg='-1', zero='0', word='all')                    # integer-typed fields have no inf/nan
 
 W = '-w'
 BASE = ['-f', '7', W, '4,0,0,1,0,0,10,.01', '--excitation-pulse=2']
